@@ -496,7 +496,7 @@ impl World for WorldU {
             let opened = matches!(op, UOp::OpenWindow { .. } | UOp::Upgrade { auth: AuthVar::Right, .. });
             ops.push(op);
             if rng.chance(1, 10) {
-                ops.push(UOp::Advance { dseq: *rng.pick(&[1u32, 17, 100, 20_000]) });
+                ops.push(UOp::Advance { dseq: *rng.pick(&[1u32, 17, 100, 20_000, 1_100_000]) });
             }
             if opened && rng.chance(1, 2) {
                 ops.push(UOp::Migrate { target, data: MigData::Unit, auth: if rng.chance(4, 5) { AuthVar::Right } else { AuthVar::Stranger }, abort: None });
